@@ -9,6 +9,7 @@
    in order up to the first task that raised, and that task's exception. *)
 From Coq Require Import ZArith List Bool Arith Lia Sorted.
 From Typhon Require Import Model.C10_pool Proofs.C10_pool Proofs.C10_align Model.C10_bundle Proofs.C10_bundle.
+From Typhon Require Import Model.C10_args Proofs.C10_args.
 Import ListNotations.
 
 (* every reachable state of imap satisfies the invariant *)
@@ -262,6 +263,47 @@ Theorem bundle_results_independent : forall c bts w tr s, 0 < w ->
       nth_res (map (btask_result c) bts) i = nth_res (map (btask_result c) bts') i).
 Proof. intros c. exact (stream_results_independent (btask_result c)). Qed.
 
+(* the ARGUMENTS of the mapped function (Model/C10_args.v).  The caller's `args` object (None, a tuple or a LIST) and
+   `kwargs` dict are shared by the argument tuples of all tasks; the wrapper of every task copies `args`, appends the
+   content and / or the FileInfo of its own file and calls the function.  For EVERY interleaving `sch` of the
+   micro-steps (copy / append content / append info / call) of the wrappers of a stream `fs`:
+   the caller's objects hold afterwards what they held before; every call that happened is the call of one task
+   of the stream with exactly (the caller's arguments in order, then the arguments of its OWN file) and the caller's
+   keyword arguments -- a function of (caller's args, file i) only; no task calls twice; a task that made its four
+   micro-steps has called, one that made fewer has not; and the call of task i is the same in any other stream
+   that has the same file at position i, under any other schedule (replacing the other tasks changes nothing). *)
+Theorem task_arguments_independent : forall c a kw fs sch,
+  let s := run_wrappers c a kw fs sch in
+  cell s = map PUser (user_args a) /\ kwcell s = kw
+  /\ (forall r, In r (calls s) ->
+        exists f, nth_error fs (c_task r) = Some f /\ c_pos r = task_arguments c a f /\ c_kw r = kw)
+  /\ NoDup (map c_task (calls s))
+  /\ (forall i f, nth_error fs i = Some f -> 4 <= count_occ Nat.eq_dec sch i ->
+        call_of s i = Some {| c_task := i; c_pos := task_arguments c a f; c_kw := kw |})
+  /\ (forall i, count_occ Nat.eq_dec sch i < 4 -> call_of s i = None)
+  /\ (forall fs' sch' r r', In r (calls s) -> In r' (calls (run_wrappers c a kw fs' sch')) ->
+        c_task r' = c_task r -> nth_error fs' (c_task r) = nth_error fs (c_task r) ->
+        c_pos r' = c_pos r /\ c_kw r' = c_kw r).
+Proof.
+  intros c a kw fs sch. cbn zeta.
+  destruct (wrappers_spec c a kw fs sch) as (H1 & H2 & H3 & H4 & H5 & H6).
+  split; [exact H1|]. split; [exact H2|]. split; [exact H3|]. split; [exact H4|]. split; [exact H5|].
+  split; [exact H6|]. intros fs' sch' r r'. exact (call_independent c a kw fs sch fs' sch' r r').
+Qed.
+
+(* the comparison the tie evaluates for every task of a case with extra arguments: code 0 iff the function was
+   seen to be called with exactly the model's positional arguments (number, order, which object) and keyword
+   arguments; and the code of the caller's `args` object after the run is 0 iff it holds what it held before
+   (a list that was appended to has code 1) *)
+Theorem observed_call_agrees_iff : forall r o before now x,
+  (call_code (Some r) o = 0%Z <-> o = Some (c_pos r, c_kw r))
+  /\ (after_code before now = 0%Z <-> now = before)
+  /\ (x <> [] -> after_code before (before ++ x) = 1%Z).
+Proof.
+  intros r o before now x. split; [exact (call_code_zero r o)|]. split; [exact (after_code_zero before now)|].
+  exact (after_code_grew before x).
+Qed.
+
 (* ------------------------------------------------------------------ non-vacuity *)
 
 (* five files, two workers; file 1 cannot be read (warning), the function returns None for file 2;
@@ -383,6 +425,43 @@ Proof.
     eexists. split; [vm_compute; reflexivity|]. vm_compute. split; reflexivity.
 Qed.
 
+(* arguments: three files, `args` = the LIST [7; 8], kwargs {0: 5}, on_content with pass_info, the micro-steps of
+   the three wrappers maximally interleaved (all copies, then all content appends, all info appends, all calls):
+   every task is called with (7, 8, its own content, its own FileInfo) and the keyword arguments, the caller's
+   list still holds [7; 8].  The same schedule WITHOUT the copy (the variant `run_gen false`: the wrappers
+   work on the caller's list itself) calls every task with all six file arguments of all three tasks and leaves
+   the caller's list grown -- this is what the theorem excludes.  The harness's encodings evaluate as intended:
+   all codes 0 for the right observation; 2 for a task that saw a foreign file argument as well, 1 for the grown list. *)
+Example nonvacuous_arguments :
+  let c := {| a_on_content := true; a_pass_info := true |} in
+  let a := AList [7; 8]%Z in
+  let kw := [(0, 5)]%Z in
+  let fs := [10; 11; 12] in
+  let s := run_wrappers c a kw fs (round_robin 3) in
+  map c_pos (calls s) = [[PUser 7; PUser 8; PContent 10; PInfo 10]; [PUser 7; PUser 8; PContent 11; PInfo 11];
+                         [PUser 7; PUser 8; PContent 12; PInfo 12]]%Z /\
+  map c_task (calls s) = [0; 1; 2] /\ cell s = [PUser 7; PUser 8]%Z /\
+  call_of (run_wrappers c a kw fs [1; 1; 0; 1; 0; 0; 1]) 1
+    = Some {| c_task := 1; c_pos := task_arguments c a 11; c_kw := kw |} /\
+  call_of (run_wrappers c a kw fs [1; 1; 0; 1; 0; 0; 1]) 0 = None /\
+  task_arguments {| a_on_content := false; a_pass_info := false |} ANone 4 = [PInfo 4] /\
+  task_arguments {| a_on_content := true; a_pass_info := false |} (ATuple [3]%Z) 4 = [PUser 3%Z; PContent 4] /\
+  (let s' := run_gen false c a kw fs (round_robin 3) in
+   map (fun r => length (c_pos r)) (calls s') = [8; 8; 8] /\ length (cell s') = 8 /\
+   after_code (cell s) (cell s') = 1%Z /\
+   run_gen false c a kw fs [0; 0; 0; 0; 1; 1; 1; 1] <> run_wrappers c a kw fs [0; 0; 0; 0; 1; 1; 1; 1]) /\
+  (args_check true true 2 [7; 8] [(0, 5)] 3 [2; 0; 1]
+    [(1, [(0, 7); (0, 8); (1, 0); (2, 0)], [(0, 5)]); (1, [(0, 7); (0, 8); (1, 1); (2, 1)], [(0, 5)]);
+     (1, [(0, 7); (0, 8); (1, 2); (2, 2)], [(0, 5)])] [(0, 7); (0, 8)] [(0, 5)] = ([0; 0; 0], 0, 0))%Z /\
+  (args_check true true 2 [7; 8] [(0, 5)] 3 [2; 0; 1]
+    [(1, [(0, 7); (0, 8); (1, 2); (2, 2); (1, 0); (2, 0)], [(0, 5)]); (0, [], []);
+     (1, [(0, 7); (0, 8); (2, 2); (1, 2)], [(0, 6)])] [(0, 7); (0, 8); (1, 2); (2, 2)] [] = ([2; 1; 3], 1, 1))%Z.
+Proof.
+  cbn zeta. repeat (split; [vm_compute; reflexivity|]).
+  split; [|split; vm_compute; reflexivity].
+  repeat (split; [vm_compute; reflexivity|]). vm_compute. discriminate.
+Qed.
+
 Print Assumptions imap_inv.
 Print Assumptions imap_in_order.
 Print Assumptions imap_all_files_in_order.
@@ -411,3 +490,5 @@ Print Assumptions bundle_singleton_arg.
 Print Assumptions observed_arg_agrees_iff.
 Print Assumptions task_results_independent.
 Print Assumptions bundle_results_independent.
+Print Assumptions task_arguments_independent.
+Print Assumptions observed_call_agrees_iff.
